@@ -576,7 +576,7 @@ def _faulty(ctx, site, fn, item_arg):
 
     def wrapped(*args):
         r = args[item_arg]
-        if (r.k, r.n) in plan:
+        if type(r) is F.Rec and (r.k, r.n) in plan:
             ctx.fired[site] = ctx.fired.get(site, 0) + 1
             raise InjectedFault(site, r.k, r.n)
         return fn(*args)
@@ -597,10 +597,7 @@ def build_node(node, ctx, mode, path, i):
         return rs.ops.map(f)
     if op == 'starmap':
         if site:  # record-typed starmap used by C13: Rec is a tuple
-            base = F.MAPS[node['fn']][0]
-
-            def star(k, n, v, t, c, _b=base):
-                return _b(F.Rec(k, n, v, t, c))
+            star = F.star_rec(F.MAPS[node['fn']][0])
             plan = set(tuple(x) for x in ctx.fail.get(site, ()))
 
             def fstar(k, n, v, t, c):
@@ -655,9 +652,9 @@ def build_node(node, ctx, mode, path, i):
     if op == 'identity':
         return rs.ops.identity()
     if op == 'do_action':
-        return rs.ops.do_action(on_next=lambda i: None)
+        return rs.ops.do_action(on_next=F.noop)
     if op == 'assert_':
-        return rs.ops.assert_(lambda i: True, name='sim')
+        return rs.ops.assert_(F.always_true, name='sim')
     if op == 'assert_1':
         return rs.ops.assert_1(F.PRED2['t2'], name='sim')
     if op == 'progress':
@@ -672,7 +669,7 @@ def build_node(node, ctx, mode, path, i):
     if op == 'error_map':
         val = node.get('value')
         if val == 'rec':
-            return rs.error.map(lambda e: F.Rec(e.args[1], e.args[2], -1, 0, False))
+            return rs.error.map(F.error_to_rec)
         return rs.error.map(lambda e: val)
     if op == 'router':
         errors, route = rs.error.create_error_router()
@@ -689,7 +686,7 @@ def build_node(node, ctx, mode, path, i):
         return route()
     if op == 'drop_planned':
         plan = set(tuple(x) for x in ctx.extra.get('drop', {}).get(node['site'], ()))
-        return rs.ops.filter(lambda r: (r.k, r.n) not in plan)
+        return rs.ops.filter(lambda r: not (type(r) is F.Rec and (r.k, r.n) in plan))
     if op == 'dist_update':
         return rs.math.dist.update(bin_count=node.get('bins', 8), reduce=bool(node.get('reduce')))
     if op == 'sort':
@@ -723,7 +720,7 @@ def build_node(node, ctx, mode, path, i):
             time_mapper=time_mapper(node),
             active_timeout=timeout(node, 'active'),
             inactive_timeout=timeout(node, 'inactive'),
-            closing_mapper=(lambda r: r.c) if node.get('closing') else None,
+            closing_mapper=F.closing_of if node.get('closing') else None,
             include_closing_item=bool(node.get('include', True)),
             pipeline=inner)
     raise Invalid('unknown operator %r' % (op,))
@@ -733,11 +730,7 @@ _EPOCH = None
 
 
 def time_mapper(node):
-    if node.get('dt'):
-        from datetime import datetime, timedelta
-        epoch = datetime(2020, 1, 1)
-        return lambda r: epoch + timedelta(seconds=r.t)
-    return lambda r: r.t
+    return F.time_of_dt if node.get('dt') else F.time_of
 
 
 def timeout(node, k):
